@@ -14,6 +14,7 @@ limitations under the License.
 package ttlcache
 
 import (
+	"math"
 	"sync"
 	"sync/atomic"
 	"time"
@@ -93,6 +94,13 @@ func (c *Cache[V]) Set(key string, val V, ttl int64) {
 
 	if c.maxTTL > 0 && ttl > c.maxTTL {
 		ttl = c.maxTTL
+	}
+
+	// More seconds than a time.Duration can hold (a TTL meant as "never expire")
+	// must not wrap around into the past
+	const maxSeconds = int64(math.MaxInt64 / time.Second)
+	if ttl > maxSeconds {
+		ttl = maxSeconds
 	}
 
 	exp := c.clock.Now().Add(time.Duration(ttl) * time.Second)
